@@ -69,28 +69,15 @@ def step (_ : Unit) (line : String) : Unit × String :=
         let sound := ts.map fun t => checkAlignment a b M gap mode t sc
         let n := nTraces mode gap M a b mx
         -- traceback model (linear, one start cell): every real trace must be one the model's `followLin` yields
-        let modelOk : Bool := match gap, mode with
-          | .lin g, .global | .lin g, .semi =>
-            let np := nPaths mode gap M a b
-            if np > 300 then true else
-            let model := tracesLin mode M g a b (tableLookup (fillLin mode M g a b)) np
-            model.length == np && alns.all fun o => match o with
-              | some aln => model.contains aln
-              | none => false
-          | .lin g, .local =>
-            let np := nPaths mode gap M a b
-            if np > 300 then true else
-            let model := tracesLocalLin M g a b (tableLookup (fillLin .local M g a b)) np
-            model.length == np && alns.all fun o => match o with
-              | some aln => model.contains aln
-              | none => false
-          | .aff go ge, _ =>
-            let np := nPaths mode gap M a b
-            if np > 300 then true else
-            let model := tracesAff mode M go ge a b (affLookup (fillAff mode M go ge a b)) np
-            model.length == np && alns.all fun o => match o with
-              | some aln => model.contains aln
-              | none => false
+        -- every real trace must be one the model of align_optimal (`alignOptimalModel`, headline theorems
+        -- `C08_align_optimal_lin/_aff`) returns when it is not truncated
+        let modelOk : Bool :=
+          let np := nPaths mode gap M a b
+          if np > 300 then true else
+          let r := alignOptimalModel mode gap M a b np
+          r.1 == optT mode gap M a b && r.2.length == np && alns.all fun o => match o with
+            | some aln => r.2.contains aln
+            | none => false
         s!"ok n={n} valid={count valid} scored={count scored} sound={count sound} " ++
         s!"distinct={if distinctNonEmpty ts then 1 else 0} count={if ts.length ≤ mx then 1 else 0} " ++
         s!"model={if modelOk then 1 else 0}"
